@@ -41,6 +41,11 @@ pub struct WbCase {
     /// fill a shard's 16 MiB buffer); the device is sized to fit
     #[serde(default)]
     pub value_kib: u16,
+    /// after the burst: 2-4 threads overwrite their own keys without pause for this many ms (the
+    /// workers stay busy across several periodic ticks, their wake-up channels stay full), then
+    /// the store idles and the sparse probes follow
+    #[serde(default)]
+    pub sustained_ms: u16,
 }
 
 fn strat() -> BoxedStrategy<WbCase> {
@@ -58,16 +63,22 @@ fn strat() -> BoxedStrategy<WbCase> {
         prop_oneof![6 => Just(None), 1 => (24u16..64, 1u8..7, prop_oneof![Just(100u16), 300u16..1200, 1200u16..3500]).prop_map(Some)],
         prop_oneof![10 => Just(0u16), 1 => 64u16..200],
     )
-        .prop_map(|(visible_cpus, keys, hot_updates, overwrite_pct, delete_pct, hammer, value_len, plain_io, ttl_sweep, probes, full_device, value_kib)| {
+        .prop_flat_map(|t| (Just(t), prop_oneof![6 => Just(0u16), 1 => 300u16..900]))
+        .prop_map(|((visible_cpus, keys, hot_updates, overwrite_pct, delete_pct, hammer, value_len, plain_io, ttl_sweep, probes, full_device, value_kib), sustained_ms)| {
+            if sustained_ms > 0 {
+                // sustained pressure, then idle, then sparse probes on every shard
+                return WbCase { visible_cpus, keys, hot_updates: 0, overwrite_pct, delete_pct, hammer: false, value_len: value_len.min(400), plain_io, ttl_sweep: false, probes: probes.max(12), full_device: None, value_kib: 0, sustained_ms };
+            }
             // byte-filling bursts: no hot key (its updates would multiply the bytes), no sweeper
             let big = value_kib > 0 && full_device.is_none();
-            WbCase { visible_cpus, keys, hot_updates: if big { 0 } else { hot_updates }, overwrite_pct: if big { overwrite_pct / 4 } else { overwrite_pct }, delete_pct, hammer, value_len, plain_io, ttl_sweep: ttl_sweep && !big, probes, full_device, value_kib: if big { value_kib } else { 0 } }
+            WbCase { visible_cpus, keys, hot_updates: if big { 0 } else { hot_updates }, overwrite_pct: if big { overwrite_pct / 4 } else { overwrite_pct }, delete_pct, hammer, value_len, plain_io, ttl_sweep: ttl_sweep && !big, probes, full_device, value_kib: if big { value_kib } else { 0 }, sustained_ms: 0 }
         })
         .boxed()
 }
 
 #[derive(Default, Clone)]
 pub struct WbNotes {
+    pub sustained: bool,
     pub shards: usize,
     pub workers: usize,
     pub shards_hit: usize,
@@ -250,6 +261,39 @@ pub fn judge(case: &WbCase, notes: &mut WbNotes) -> Result<(), (String, String)>
         let v = val(0, 10 + g as u32);
         let _ = store.insert(&k, &v);
         want.insert(k, Some(v));
+    }
+    if case.sustained_ms > 0 {
+        let threads = 2 + (case.keys as usize % 3);
+        let until = Instant::now() + Duration::from_millis(case.sustained_ms as u64);
+        let mut hs = Vec::new();
+        for t in 0..threads {
+            let store = store.clone();
+            let vb = value_bytes;
+            hs.push(std::thread::spawn(move || {
+                let mut g = 0u32;
+                let mut last: Vec<(Vec<u8>, Vec<u8>)> = Vec::new();
+                while Instant::now() < until {
+                    g += 1;
+                    last.clear();
+                    for j in 0..8u16 {
+                        let k = format!("wb-sus-{t}-{j}").into_bytes();
+                        let mut v = vec![0u8; vb];
+                        seq::stamp_fill(&mut v, 20_000 + t as u16 * 16 + j, g);
+                        let _ = store.insert(&k, &v);
+                        last.push((k, v));
+                    }
+                }
+                last
+            }));
+        }
+        for h in hs {
+            if let Ok(last) = h.join() {
+                for (k, v) in last {
+                    want.insert(k, Some(v));
+                }
+            }
+        }
+        notes.sustained = true;
     }
     let snap0 = store.verif_snapshot();
     notes.shards = snap0.shard_pending.len();
@@ -475,6 +519,9 @@ pub fn run(tier: Tier, seed: u64, replay: Option<&str>) -> i32 {
             if case.hot_updates > 512 {
                 *c.entry("buffer_filling_burst".into()).or_insert(0) += 1;
             }
+            if notes.sustained {
+                *c.entry("sustained_pressure_then_sparse_probes".into()).or_insert(0) += 1;
+            }
             if case.value_kib > 0 && case.full_device.is_none() {
                 *c.entry("byte_filling_burst".into()).or_insert(0) += 1;
                 if case.keys as usize * case.value_kib as usize > 16 * 1024 * notes.shards.max(1) {
@@ -510,7 +557,7 @@ pub fn run(tier: Tier, seed: u64, replay: Option<&str>) -> i32 {
         tier,
         seed,
         "exploration",
-        "proptest-generated live workloads without any explicit flush on stores built with 1..8 workers/shards (2-16 visible CPUs): 64-260 distinct keys (so all shards are hit), overwrites and deletes whose old generations must be retired, optional buffer-filling burst on one key (>1024 entries in one shard), one case in eleven with values of 64-200 KiB (a burst whose bytes exceed a shard's 16 MiB buffer), optional hammering neighbour thread, optional TTL keys removed by the sweeper, small to 9 KB values, both I/O paths, odd and even CPU counts; a quarter of the cases continues with 8-15 single writes issued one at a time, each awaited separately (sparse traffic); a seventh of the cases instead fills a 24-63 block device with one-block records, issues 1-6 further accepted writes that must wait for space for 0.1-3.5 s, reclaims space with accepted deletes and requires the waiting writes on the device within the same bound. After the last call returns the harness polls (peek/snapshot hooks) until every accepted key has a device extent and, without a busy neighbour, no buffered entry or retirement is pending; then the fsync-covered image rebuilt from the I/O trace must decode (independent codec) to the final values with no superseded generation left, and recover. Violation only if not drained 15 s + 5x the largest measured scheduling stall after the last call, reproduced twice; 2 s..15 s is recorded as slow. Non-trivial: at least two shards held pending entries at the end of the burst, one of them owned by a worker other than worker 0.",
+        "proptest-generated live workloads without any explicit flush on stores built with 1..8 workers/shards (2-16 visible CPUs): 64-260 distinct keys (so all shards are hit), overwrites and deletes whose old generations must be retired, optional buffer-filling burst on one key (>1024 entries in one shard), one case in seven with 2-4 threads overwriting their own keys without pause for 0.3-0.9 s (workers busy across several periodic ticks, wake-up channels full) followed by at least 12 sparse probes, one case in eleven with values of 64-200 KiB (a burst whose bytes exceed a shard's 16 MiB buffer), optional hammering neighbour thread, optional TTL keys removed by the sweeper, small to 9 KB values, both I/O paths, odd and even CPU counts; a quarter of the cases continues with 8-15 single writes issued one at a time, each awaited separately (sparse traffic); a seventh of the cases instead fills a 24-63 block device with one-block records, issues 1-6 further accepted writes that must wait for space for 0.1-3.5 s, reclaims space with accepted deletes and requires the waiting writes on the device within the same bound. After the last call returns the harness polls (peek/snapshot hooks) until every accepted key has a device extent and, without a busy neighbour, no buffered entry or retirement is pending; then the fsync-covered image rebuilt from the I/O trace must decode (independent codec) to the final values with no superseded generation left, and recover. Violation only if not drained 15 s + 5x the largest measured scheduling stall after the last call, reproduced twice; 2 s..15 s is recorded as slow. Non-trivial: at least two shards held pending entries at the end of the burst, one of them owned by a worker other than worker 0.",
     );
     ev.started = started;
     ev.evaluations = evaluations.load(Ordering::Relaxed);
